@@ -330,7 +330,7 @@ def run_case(case, workdir):
             val = np.asarray(e["val"], dtype=np.float64).reshape(-1)
             xs = np.asarray(e["prior"][0], dtype=np.float64)
             xl = np.asarray(e["like"][0], dtype=np.float64)
-            if xs.shape != xl.shape or not np.array_equal(xs, xl):
+            if xs.shape != xl.shape or not np.array_equal(xs, xl, equal_nan=True):
                 V.append(O.violation("c05.seam_pairing", f"kernel {ki}: prior and likelihood were evaluated on different points", where))
                 continue
             if len(z) != len(val) or len(z) != len(xs):
